@@ -53,12 +53,16 @@ def load_wf(graph, base):
     return mod
 
 
-def _child(graph, K, worker, base, outfile):
+def _child(graph, K, worker, base, outfile, late=None):
     try:
         os.environ.update({"VERIF_CTL": str(Path(base) / "ctl"), "VERIF_LOG": str(Path(base) / "events.ndjson"),
                            "VERIF_PROC": "main"})
         for k in ("VERIF_CRASH_AT", "VERIF_RAISE_AT", "VERIF_GATE_DIR", "VERIF_SLEEP_AT", "VERIF_FAULT_JOB"):
             os.environ.pop(k, None)
+        if late:
+            # the jobs of node `late` save their result and then linger before returning: their futures
+            # complete late (Submitter!WorkerReturn after other jobs' completions have triggered scans)
+            os.environ.update({"VERIF_SLEEP_AT": "cwd_restored:5.0", "VERIF_FAULT_JOB": late})
         handler._fd = None
         sys.path.insert(0, str(base))
         from pydra.engine.submitter import Submitter
@@ -102,7 +106,7 @@ def run_schedule(spec):
     outfile = Path(base) / "out.json"
     timeout = spec.get("timeout", 90)
     t_end = time.time() + timeout
-    json.dump({"graph": graph, "K": K, "worker": worker}, open(Path(base) / "spec.json", "w"))
+    json.dump({"graph": graph, "K": K, "worker": worker, "late": spec.get("late")}, open(Path(base) / "spec.json", "w"))
     proc = subprocess.Popen([core.PY, "-m", "harness.sub_child", str(base)], env=core.child_env(hooks=True),
                             stdout=subprocess.DEVNULL, stderr=open(Path(base) / "child.err", "w"))
     pid = proc.pid
@@ -140,6 +144,8 @@ def run_schedule(spec):
                 time.sleep(0.003)
             if problem:
                 break
+            if spec.get("late") == j[0]:
+                continue            # its future completes late: go on with the other jobs meanwhile
             # let the loop observe the completion (a new scan) before the next release
             t1 = time.time() + 3.0
             while n_scans() == scans0 and time.time() < t1:
